@@ -196,7 +196,7 @@ def glb_shape(ctx, rule):
     nxt = [bi for bi, t in q.calls_to(b, "Iterator::next")]
     for d in range(len(b.blocks)):
         t = b.blocks[d]["term"]
-        if t["k"] == "switch" and q.shape(b.expr_of_operand(t["discr"]), roles).startswith("PartialEq::eq(Fn::call(arg3"):
+        if t["k"] == "switch" and q.shape(b.expr_of_operand(t["discr"]), roles).startswith("PartialEq::eq(") and "Fn::call(arg3" in q.shape(b.expr_of_operand(t["discr"]), roles):
             false_t = [tb for v, tb in t["arms"] if v == 0]
             ok = bool(false_t) and bool(nxt) and not b.reaches(false_t[0], nxt[0]) and false_t[0] != nxt[0]
             ctx.check(ok, rule, fn, "walk:break", "the walk-back stops at the first element with a different key", ctx.site(b, d))
